@@ -1053,7 +1053,7 @@ fn mutate(base: &ParseCase, kind: u8, psel: u16, csel: u16, seed: u64) -> ParseC
 const NEAR: [char; 27] = ['0', '1', '_', '+', '-', 'x', 'b', 'o', '7', '9', 'a', 'f', 'z', 'A', 'F', 'Z', 'X', 'B', 'O', ' ', '.', '2', '8', 'g', 'e', '\u{660}', 'é'];
 
 fn invalid_case() -> impl Strategy<Value = ParseCase> {
-    let big = prop_oneof![300 => Just(false), 1 => Just(true)];
+    let big = prop_oneof![100 => Just(false), 1 => Just(true)];
     let mutated = (big.prop_flat_map(recipe), 0u8..5, any::<u16>(), any::<u16>(), any::<u64>()).prop_map(|(rc, kind, psel, csel, seed)| mutate(&build(&rc), kind, psel, csel, seed));
     // short strings over an alphabet close to the grammar: "", "+", "-", "_", "0x", "-0b_", "+-1", ...
     let near = (proptest::collection::vec(0usize..NEAR.len(), 0..9), 0u8..4, radix()).prop_map(|(ix, entry, radix)| ParseCase { text: ix.into_iter().map(|i| NEAR[i]).collect(), radix, entry });
@@ -1501,12 +1501,12 @@ fn main() {
     );
     ck.assume("std's Formatter::pad_integral and the u128/i128 formatting impls as the layout reference");
     ck.sub("print", (40_000, 600_000), || value_for_radix(false).prop_map(|(v, radix)| PrintCase { v, radix }), print);
-    ck.sub("print_huge", (250, 5_000), || value_for_radix(true).prop_map(|(v, radix)| PrintCase { v, radix }), print);
+    ck.sub("print_huge", (1_500, 22_000), || value_for_radix(true).prop_map(|(v, radix)| PrintCase { v, radix }), print);
     ck.sub("layout", (40_000, 600_000), layout_case, layout);
     ck.sub("debug", (15_000, 225_000), || debug_case(false), debug);
-    ck.sub("debug_huge", (150, 3_000), || debug_case(true), debug);
+    ck.sub("debug_huge", (1_000, 15_000), || debug_case(true), debug);
     ck.sub("parse_valid", (35_000, 525_000), || valid_case(false), parse_oracle);
-    ck.sub("parse_valid_huge", (250, 5_000), || valid_case(true), parse_oracle);
+    ck.sub("parse_valid_huge", (1_500, 22_000), || valid_case(true), parse_oracle);
     ck.sub("parse_invalid", (40_000, 600_000), invalid_case, parse_oracle);
     ck.sub(
         "radix_invalid",
@@ -1521,7 +1521,7 @@ fn main() {
         bad_radix,
     );
     ck.sub("roundtrip", (15_000, 225_000), || value_for_radix(false).prop_map(|(v, radix)| PrintCase { v, radix }), roundtrip);
-    ck.sub("roundtrip_huge", (100, 2_000), || value_for_radix(true).prop_map(|(v, radix)| PrintCase { v, radix }), roundtrip);
+    ck.sub("roundtrip_huge", (600, 9_000), || value_for_radix(true).prop_map(|(v, radix)| PrintCase { v, radix }), roundtrip);
     ck.sub("bytes", (20_000, 300_000), bytes_value_case, bytes_value);
     ck.sub("bytes_raw", (15_000, 225_000), raw_bytes_case, bytes_raw);
     ck.sub(
